@@ -25,10 +25,11 @@ def dial_summary(prog, memo, defp, depth=0):
         return memo[defp]
     memo[defp] = None
     res = None
-    for fb in prog.family(defp):
-        for (blk, c, t) in fb.calls():
-            if c.name in DIAL_NAMES:
-                res = c.name
+    from .common import inline_family, inline_calls
+    for fb in inline_family(prog, defp):          # what a caller that awaits this function waits for: not what it hands to tokio::spawn
+        for (blk, c, t) in inline_calls(prog, fb):
+            if c.name in DIAL_NAMES or (c.method in ("accept", "connect", "connect_on") and "tokio_websockets" in ((c.self_s or "") + " " + c.target)):
+                res = c.name if c.name in DIAL_NAMES else f"WebSocket {c.method} ({c.name})"
                 break
             if c.target.startswith("octo_squirrel") and depth < 6 and c.target != defp:
                 sub = dial_summary(prog, memo, prog.bodies[c.target].root if c.target in prog.bodies else c.target, depth + 1)
